@@ -260,6 +260,72 @@ def run_symvec_extreme(c):
                     c.fail('symvec extreme raises', 'N=%d' % N, {'error': str(e)[:200]})
 
 
+def top_pairing(a, b):
+    """the library's pairing of an adjoint polynomial with a direction polynomial: sum_c <a_c, b_(D-1-c)>"""
+    D = a.shape[0]
+    return float(sum(np.sum(a[k] * b[D - 1 - k]) for k in range(D)))
+
+
+def run_adjoints(c):
+    """the pullbacks of the (linear) conversion helpers are their transposes: <pb(ybar), x'> = <ybar, f(x')> for general,
+    NON-symmetric seeds and fresh arguments; for lu2 the first-order identity <Abar, A'> = <Lbar, L'> + <Ubar, U'>"""
+    for (D, P) in [(1, 1), (2, 2)]:
+        for N in (2, 3, 4):
+            n = N * (N + 1) // 2
+            vp = UTPM(vals((D, P, n), 7))
+            Abar = UTPM(vals((D, P, N, N), 9))                       # non-symmetric
+            c.ev(True)
+            try:
+                lhs = sum(top_pairing(UTPM.pb_vecsym(UTPM(Abar.data.copy()), vp, algopy.vecsym(vp)).data[:, p], vp.data[:, p]) for p in range(P))
+                rhs = sum(top_pairing(Abar.data[:, p], algopy.vecsym(vp).data[:, p]) for p in range(P))
+                if abs(lhs - rhs) > 1e-12 * (1 + abs(rhs)):
+                    c.fail('pb_vecsym', 'not the transpose of vecsym', {'N': N, 'D': D, 'P': P, 'lhs': lhs, 'rhs': rhs})
+            except Exception as e:
+                c.fail('pb_vecsym raises', 'N=%d' % N, {'error': str(e)[:200]})
+            Ap = UTPM(vals((D, P, N, N), 11))
+            for UPLO in 'FLU':
+                c.ev(True)
+                try:
+                    vbar = UTPM(vals((D, P, n), 13))
+                    y = algopy.symvec(Ap, UPLO)
+                    xb = UTPM.pb_symvec(UTPM(vbar.data.copy()), Ap, UPLO, y)
+                    lhs = sum(top_pairing(xb.data[:, p], Ap.data[:, p]) for p in range(P))
+                    rhs = sum(top_pairing(vbar.data[:, p], y.data[:, p]) for p in range(P))
+                    if abs(lhs - rhs) > 1e-12 * (1 + abs(rhs)):
+                        c.fail('pb_symvec', 'not the transpose of symvec|' + UPLO, {'N': N, 'D': D, 'P': P, 'lhs': lhs, 'rhs': rhs})
+                except Exception as e:
+                    c.fail('pb_symvec raises', UPLO, {'error': str(e)[:200]})
+    # lu2: first-order adjoint identity with non-zero seeds for BOTH factors, one direction per pivot pattern
+    rng = np.random.default_rng(17)
+    for N in (2, 3, 4):
+        seen = set()
+        for trial in range(200):
+            A0 = np.round(rng.uniform(-2, 2, size=(N, N)) * 4) / 4.0
+            if abs(np.linalg.det(A0)) < 0.5 or np.linalg.cond(A0) > 30:
+                continue
+            piv = tuple(int(v) for v in scipy.linalg.lu_factor(A0)[1])
+            if piv in seen:
+                continue
+            seen.add(piv)
+            A1 = np.round(rng.uniform(-1, 1, size=(N, N)) * 8) / 8.0
+            data = np.zeros((2, 1, N, N))
+            data[0, 0], data[1, 0] = A0, A1
+            c.ev(True)
+            try:
+                PIV2, L2, U2 = UTPM.lu2(UTPM(data.copy()))
+                A = UTPM(data[:1].copy())
+                PIV, L, U = UTPM.lu2(A)
+                Lbar = UTPM(np.tril(np.round(rng.uniform(-1, 1, size=(1, 1, N, N)) * 8) / 8.0, -1))
+                Ubar = UTPM(np.triu(np.round(rng.uniform(-1, 1, size=(1, 1, N, N)) * 8) / 8.0))
+                Abar = UTPM.pb_lu2(UTPM(np.zeros_like(PIV.data, dtype=float)), UTPM(Lbar.data.copy()), UTPM(Ubar.data.copy()), A, PIV, L, U)
+                lhs = float(np.sum(Abar.data[0, 0] * A1))
+                rhs = float(np.sum(Lbar.data[0, 0] * L2.data[1, 0]) + np.sum(Ubar.data[0, 0] * U2.data[1, 0]))
+                if abs(lhs - rhs) > 1e-10 * (1 + abs(rhs) + np.abs(Abar.data).max()):
+                    c.fail('pb_lu2', 'adjoint identity with non-zero Lbar', {'N': N, 'pivots': list(piv), 'lhs': lhs, 'rhs': rhs})
+            except Exception as e:
+                c.fail('pb_lu2 raises', 'N=%d' % N, {'error': str(e)[:200]})
+
+
 def run_asutpm(c):
     for cshape in [(2,), (3, 1), (2, 2), (2, 3, 4), (3, 2, 1, 2)]:
         for eshape in [(), (2,), (2, 2)]:
@@ -613,6 +679,7 @@ def run_unit(u):
     elif k == 'symvec':
         run_symvec(c)
         run_symvec_extreme(c)
+        run_adjoints(c)
     elif k == 'asutpm':
         run_asutpm(c)
     elif k == 'blocks':
